@@ -57,7 +57,7 @@ func itoa(i int) string { return strconv.Itoa(i) }
 // of it (quantified assumptions dropped after pre-instantiation): unsat of either proves the
 // obligation, sat counts only for the full query. A model of the relaxed query is returned as
 // a candidate counterexample (Candidate) when nothing decides.
-func Solve(script, relaxed, bvabs, dir, base string, timeoutS int, which []string) SolveResult {
+func Solve(script, relaxed, bvabs, goaldir, cone, dir, base string, timeoutS int, which []string) SolveResult {
 	os.MkdirAll(dir, 0o755)
 	ctx, cancel := context.WithTimeout(context.Background(), time.Duration(timeoutS+2)*time.Second)
 	defer cancel()
@@ -91,6 +91,12 @@ func Solve(script, relaxed, bvabs, dir, base string, timeoutS int, which []strin
 		}
 		if bvabs != "" && sp.name == "z3-5.1" {
 			jobs = append(jobs, job{sp, bvabs, true, "+inst+bvabs"})
+		}
+		if goaldir != "" && sp.name != "cvc5-1.0" {
+			jobs = append(jobs, job{sp, goaldir, true, "+goalinst"})
+		}
+		if cone != "" && sp.name != "cvc5-1.0" {
+			jobs = append(jobs, job{sp, cone, true, "+cone"})
 		}
 	}
 	ch := make(chan res, len(jobs))
@@ -127,7 +133,9 @@ func Solve(script, relaxed, bvabs, dir, base string, timeoutS int, which []strin
 			case first == "timeout" || strings.Contains(o, "timeout") || strings.Contains(o, "interrupted") || ctx.Err() != nil:
 				st = "timeout"
 			}
-			os.Remove(f)
+			if os.Getenv("GOVC_KEEPFILES") == "" {
+				os.Remove(f)
+			}
 			ch <- res{j.sp.name + j.tag, st, o, secs, j.relaxed}
 		}()
 	}
